@@ -32,8 +32,13 @@ try:
                                              "repo_head": m.get("repo_head_at_confirmation")})
     for c in checks:
         t0 = time.time()
+        # the check writes evidence/<id>.json: keep the committed one (evidence must describe /repo itself)
+        ev = os.path.join(ROOT, "evidence", c + ".json")
+        keep = open(ev).read() if os.path.exists(ev) else None
         q = subprocess.run(["timeout", "3000", os.path.join(ROOT, "verif"), "check", c, "--tier", "quick"],
                            env=dict(os.environ, VERIF_REPO=wt), stdout=subprocess.PIPE, stderr=subprocess.STDOUT, text=True)
+        if keep is not None:
+            open(ev, "w").write(keep)
         sigs = sorted(set(l.strip() for l in q.stdout.splitlines() if l.strip().startswith("signature:")))
         m.setdefault("checks", {})[c] = {"exit": q.returncode, "caught": q.returncode == 1, "signatures": sigs[:6], "wall_s": round(time.time() - t0)}
         print("%s on %s: exit %d %s" % (c, sid, q.returncode, sigs[:3]), flush=True)
